@@ -86,6 +86,39 @@ def deviations(rid, limit_values=None):
     return out
 
 
+_WORD = None
+
+
+def matching_list_values(rid, sid):
+    """for the list-valued exception options: one entry that matches an identifier of the fixture (documented form: a word for
+    case_exceptions, a leading / trailing fragment for prefix_exceptions / suffix_exceptions), so that the option is actually in play"""
+    global _WORD
+    import re
+
+    if _WORD is None:
+        _WORD = re.compile(r"[A-Za-z][A-Za-z0-9_]{3,}")
+    inv = inventory()[rid]
+    opts = [o for o in inv["options"] if o in ("case_exceptions", "prefix_exceptions", "suffix_exceptions")]
+    if not opts:
+        return []
+    words = []
+    for l in corpus.lines_of(sid):
+        for w in _WORD.findall(l.split("--")[0]):
+            if w.lower() != w and w not in words:
+                words.append(w)
+    # prefer words whose stem ends in (starts with) a character of the fragment: the fragment must be cut off, not stripped
+    def frag_ok(w, suffix):
+        return (w[-3] in w[-2:]) if suffix else (w[2] in w[:2])
+    out = []
+    en = {"disable": False} if inv["disable"] else {}
+    for o in opts:
+        cand = sorted(words, key=lambda w: (not frag_ok(w, o == "suffix_exceptions"), words.index(w)))[:2]
+        for w in cand:
+            v = [w] if o == "case_exceptions" else ([w[:2]] if o == "prefix_exceptions" else [w[-2:]])
+            out.append((f"{rid}.{o}~{_norm(v)}", {"rule": {rid: dict(en, **{o: v})}}))
+    return out
+
+
 def fixture_of(rid):
     name, num = rid.rsplit("_", 1)
     sid = f"fix/{name}/rule_{num}"
@@ -105,6 +138,8 @@ def items_for_own_fixtures(limit_values=None, rules=None, enable_disabled=True, 
         if inv[rid]["disable"] and enable_disabled:
             out.append(universe.mk(sid, (), None, {"rule": {rid: {"disable": False}}}, cfgname=f"{rid}.disable=false"))
         for name, cfg in deviations(rid, limit_values):
+            out.append(universe.mk(sid, (), None, cfg, cfgname=name))
+        for name, cfg in matching_list_values(rid, sid):
             out.append(universe.mk(sid, (), None, cfg, cfgname=name))
         if generic and idx % generic == 0:
             en = {"disable": False} if inv[rid]["disable"] else {}
